@@ -5,6 +5,7 @@ from ..common import *
 from ..errors import AnalysisError
 from ..alloc import alloc_func, allocation_sites
 from ..interp import Interp
+from ..sorters import sorter_table
 
 CLAIM = ("Every armed rule instance held: (R11.1) each of the four sort functions returns, on every branch, sorted(<its list "
          "parameter>, key=..., reverse=...) -- a stable sorted permutation -- and the unchanged parameter on fall-through; "
@@ -14,10 +15,11 @@ CLAIM = ("Every armed rule instance held: (R11.1) each of the four sort function
          "compares ID strings by identity; (R11.5) each allocation loop iterates, through order-preserving operations only, a list "
          "whose last assignment is the matching sort function called with the task's own rule, and tasks are visited in the order "
          "returned by sort_task_list. The no-inversion clause under run-time contention is decided only in this structural part.")
-EXPLANATION = ("AST extraction of the branch table of each sort function (rule member -> key reads, direction); call-site / kwargs "
-               "agreement; order provenance of the allocator's loops.")
+EXPLANATION = ("Each sort function is interpreted abstractly once per member of its rule enum; every path must return the input "
+               "or sorted(<input>, key, reverse); the key's AST gives reads and direction (whatever the dispatch idiom: if-chain, "
+               "early return, rule table); call-site / kwargs agreement; order provenance of the allocator's loops.")
 ASSUMPTIONS = ["Python's sorted() is stable", "greedy per-task allocation (C06 R6.3) and shrinking of the shared free list (C03 R3.2)"]
-TECHNIQUE = "AST table extraction of sibling sort functions + call-site/kwargs agreement + order-provenance dataflow"
+TECHNIQUE = "per-rule-member abstract interpretation of sibling sort functions (result = permutation value with key AST) + call-site/kwargs agreement + order-provenance dataflow"
 
 SORTERS = {"sort_task_list": "TaskPriorityRuleMode", "sort_worker_list": "ResourcePriorityRuleMode",
            "sort_facility_list": "ResourcePriorityRuleMode", "sort_workplace_list": "WorkplacePriorityRuleMode"}
@@ -45,139 +47,71 @@ SPEC = {
 }
 
 
-def branches(ctx, fname):
-    """-> {member: (if-node, body stmts)} of the rule dispatch in a sort function."""
-    f = ctx.repo.func(fname)
-    enum = SORTERS[fname]
-    out = {}
-    for n in ast.walk(f.node):
-        if isinstance(n, ast.If) and isinstance(n.test, ast.Compare) and len(n.test.ops) == 1 and isinstance(n.test.ops[0], (ast.Eq, ast.Is)):
-            en = ctx.repo.enum_of_member_expr(n.test.comparators[0])
-            if en and en[0] == enum and isinstance(n.test.left, ast.Name):
-                out[en[1]] = (n, n.body)
-    return f, out
-
-
-def key_info(ctx, f, body):
-    """-> (sorted-call node, leading key reads, direction, kwargs keys read) or None."""
-    call = None
-    for s in body:
-        for n in ast.walk(s):
-            if isinstance(n, ast.Call) and isinstance(n.func, ast.Name) and n.func.id == "sorted":
-                call = n
-    if call is None:
-        return None
-    key = next((kw.value for kw in call.keywords if kw.arg == "key"), None)
-    rev = next((kw.value for kw in call.keywords if kw.arg == "reverse"), None)
-    reverse = bool(isinstance(rev, ast.Constant) and rev.value)
-    reads, neg = set(), False
-    if isinstance(key, ast.Lambda):
-        lead = key.body.elts[0] if isinstance(key.body, ast.Tuple) else key.body
-        if isinstance(lead, ast.UnaryOp) and isinstance(lead.op, ast.USub):
-            neg = True
-            lead = lead.operand
-        reads = expr_reads(ctx, f, lead, body)
-    direction = "desc" if (reverse != neg) else "asc"
-    return call, reads, direction, key
-
-
-def expr_reads(ctx, f, e, scope_body):
-    out = set()
-    method_funcs = {id(n.func) for n in ast.walk(e) if isinstance(n, ast.Call) and isinstance(n.func, ast.Attribute)}
-    for n in ast.walk(e):
-        if isinstance(n, ast.Attribute) and id(n) not in method_funcs:
-            out.add(n.attr)
-        if isinstance(n, ast.Call):
-            if isinstance(n.func, ast.Attribute):
-                if n.func.attr not in ("values", "get", "items", "keys"):
-                    out.add(n.func.attr + "()")
-            elif isinstance(n.func, ast.Name):
-                # nested helper defined in the branch
-                for s in scope_body:
-                    for d in ast.walk(s):
-                        if isinstance(d, ast.FunctionDef) and d.name == n.func.id:
-                            for st in d.body:
-                                out |= expr_reads(ctx, f, st, [])
-    return {r for r in out if r not in ("name",)}
-
-
 def r11_1(ctx):
-    ctx.begin("R11.1", "sort functions return a sorted permutation of their input on every branch", floor=4)
+    ctx.begin("R11.1", "sort functions return a sorted permutation of their input for every rule member on every path", floor=4)
     for fname in SORTERS:
-        f, brs = branches(ctx, fname)
+        f, enum, table = sorter_table(ctx, fname)
         p0 = f.params[0]
-        ctx.instance(fname, cells=len(brs))
-        rets = [n for n in ast.walk(f.node) if isinstance(n, ast.Return) and ctx.types.ftypes(f).owner_func(n) is f.node]
-        if not rets or not all(isinstance(r.value, ast.Name) and r.value.id == p0 for r in rets):
-            ctx.violation(f"{fname}:return", f.loc(), f"{fname} does not return its (re-assigned) list parameter `{p0}` on every path")
+        ctx.require(enum == SORTERS[fname], f"{fname} dispatches on {enum}, expected {SORTERS[fname]}")
+        ctx.instance(fname, cells=sum(len(v) for v in table.values()), sample={m: [repr(o.value)[:60] for o in outs] for m, outs in table.items()})
+        for member, outs in table.items():
+            if not outs:
+                ctx.violation(f"{fname}:return", f.loc(), f"{fname} has no normally returning path for rule {member}")
+            for o in outs:
+                if isinstance(o.value, Const) and o.value.v is None:
+                    ctx.violation(f"{fname}:return", f.loc(), f"{fname} does not return its (re-assigned) list parameter `{p0}` on every path (rule {member} returns None)")
+                elif not o.permutation:
+                    loc = f.loc(o.sorts[-1].node) if o.sorts else f.loc()
+                    ctx.violation(f"{fname}:not-a-permutation", loc, f"{fname} returns `{o.value!r}` for rule {member}: not sorted(<the input list>, ...) nor the input itself -- elements may be dropped, duplicated or re-built")
         for n in ast.walk(f.node):
-            if isinstance(n, ast.Assign) and any(isinstance(t, ast.Name) and t.id == p0 for t in n.targets) and ctx.types.ftypes(f).owner_func(n) is f.node:
-                v = n.value
-                ok = isinstance(v, ast.Call) and isinstance(v.func, ast.Name) and v.func.id == "sorted" and len(v.args) == 1 and isinstance(v.args[0], ast.Name) \
-                    and v.args[0].id == p0 and all(kw.arg in ("key", "reverse") for kw in v.keywords)
-                if not ok:
-                    ctx.violation(f"{fname}:not-a-permutation", f.loc(n), f"{fname} assigns `{ast.unparse(v)[:70]}` to its list: not sorted(<the input list>, ...) -- elements may be dropped, duplicated or re-built")
             if isinstance(n, ast.Call) and isinstance(n.func, ast.Attribute) and isinstance(n.func.value, ast.Name) and n.func.value.id == p0 \
-                    and n.func.attr in ("pop", "remove", "append", "clear", "extend", "insert"):
+                    and n.func.attr in ("pop", "remove", "append", "clear", "extend", "insert", "sort", "reverse"):
                 ctx.violation(f"{fname}:mutates-input", f.loc(n), f"{fname} mutates its input list by `{n.func.attr}`")
     ctx.end()
 
 
+def sorting_outcomes(ctx, fname, member):
+    f, enum, table = sorter_table(ctx, fname)
+    return f, [o for o in table.get(member, []) if o.sorted_call is not None], table.get(member, [])
+
+
 def r11_2(ctx):
     ctx.begin("R11.2", "documented key and direction per rule member", floor=18)
+    from ..exprnorm import normalise
     for (fname, member), (want_reads, want_dir) in SPEC.items():
-        f, brs = branches(ctx, fname)
+        f, outs, allouts = sorting_outcomes(ctx, fname, member)
         con = f"{fname}:{member}"
-        if member not in brs:
+        if not outs or len(outs) != len(allouts):
             ctx.instance(con)
-            ctx.violation(con + ":branch-missing", f.loc(), f"{fname} has no branch for documented rule {member}")
+            ctx.violation(con + ":branch-missing", f.loc(), f"{fname} does not sort for documented rule {member}" + (" on every path" if outs else ""))
             continue
-        info = key_info(ctx, f, brs[member][1])
-        if info is None:
-            ctx.instance(con)
-            ctx.violation(con + ":no-sort", f.loc(brs[member][0]), f"{fname} branch {member} does not sort")
-            continue
-        call, reads, direction, key = info
-        ctx.instance(con, sample={"reads": sorted(reads), "direction": direction})
-        if reads != want_reads:
-            ctx.violation(con + ":key", f.loc(call), f"{fname}/{member}: the leading sort key reads {sorted(reads)} (documented: {sorted(want_reads)})")
-        if direction != want_dir:
-            ctx.violation(con + ":direction", f.loc(call), f"{fname}/{member}: sorts {direction}ending (documented: {want_dir}ending)")
-    # special shapes
-    f, brs = branches(ctx, "sort_task_list")
-    if "TSLACK" in brs:
-        info = key_info(ctx, f, brs["TSLACK"][1])
-        if info and isinstance(info[3], ast.Lambda):
-            from ..exprnorm import normalise
-            p = info[3].args.args[0].arg
-            got = normalise(info[3].body)
-            want = normalise(ast.parse(f"{p}.lst - {p}.est", mode="eval").body)
-            if got != want:
-                ctx.violation("sort_task_list:TSLACK:formula", f.loc(info[0]), f"TSLACK key is `{ast.unparse(info[3].body)}`, not latest start minus earliest start")
-    for fname in ("sort_worker_list", "sort_facility_list"):
-        f, brs = branches(ctx, fname)
-        if "HSV" in brs:
-            info = key_info(ctx, f, brs["HSV"][1])
-            ok = False
-            if info and isinstance(info[3], ast.Lambda):
-                call = info[0]
-                lead = info[3].body.elts[0] if isinstance(info[3].body, ast.Tuple) else info[3].body
-                neg = False
-                if isinstance(lead, ast.UnaryOp) and isinstance(lead.op, ast.USub):
-                    neg, lead = True, lead.operand
-                rev = next((kw.value for kw in call.keywords if kw.arg == "reverse"), None)
-                reverse = bool(isinstance(rev, ast.Constant) and rev.value)
+        ctx.instance(con, sample={"reads": sorted(outs[0].reads()), "direction": outs[0].direction(), "paths": len(outs)})
+        for o in outs:
+            call = o.sorted_call.node
+            reads, direction = o.reads(), o.direction()
+            if reads != want_reads:
+                ctx.violation(con + ":key", f.loc(call), f"{fname}/{member}: the leading sort key reads {sorted(reads)} (documented: {sorted(want_reads)})")
+            if direction != want_dir:
+                ctx.violation(con + ":direction", f.loc(call), f"{fname}/{member}: sorts {direction}ending (documented: {want_dir}ending)")
+            lead, neg = o.lead()
+            src = " ".join(ast.unparse(n) for n in o.key_nodes())
+            if (fname, member) == ("sort_task_list", "TSLACK") and isinstance(lead, ast.expr) and o.key_param():
+                p = o.key_param()
+                want = normalise(ast.parse(f"{p}.lst - {p}.est", mode="eval").body)
+                if neg or normalise(lead) != want:
+                    ctx.violation("sort_task_list:TSLACK:formula", f.loc(call), f"TSLACK key is `{ast.unparse(lead)}`, not latest start minus earliest start")
+            if member == "HSV" and fname in ("sort_worker_list", "sort_facility_list"):
+                ok = False
                 if isinstance(lead, ast.Call) and isinstance(lead.func, ast.Attribute) and lead.func.attr == "get" and len(lead.args) == 2:
                     d = ast.unparse(lead.args[1]).replace('"', "'").replace(" ", "")
                     dv = {"-float('inf')": -1, "float('-inf')": -1, "float('inf')": 1}.get(d)
                     if dv is not None:
                         k = -dv if neg else dv
-                        ok = (k == 1 and not reverse) or (k == -1 and reverse)
-            if not ok:
-                ctx.violation(f"{fname}:HSV:missing-last", f.loc(brs["HSV"][0]), f"{fname}/HSV: a resource without an entry for the task must sort last (its default key must be the worst value)")
-    f, brs = branches(ctx, "sort_task_list")
-    if "FIFO" in brs and "READY" not in ast.unparse(ast.Module(body=brs["FIFO"][1], type_ignores=[])):
-        ctx.violation("sort_task_list:FIFO:ready-count", f.loc(brs["FIFO"][0]), "FIFO key does not count READY entries of the state log")
+                        ok = (k == 1 and not o.reverse()) or (k == -1 and o.reverse())
+                if not ok:
+                    ctx.violation(f"{fname}:HSV:missing-last", f.loc(call), f"{fname}/HSV: a resource without an entry for the task must sort last (its default key must be the worst value)")
+            if (fname, member) == ("sort_task_list", "FIFO") and "READY" not in src:
+                ctx.violation("sort_task_list:FIFO:ready-count", f.loc(call), "FIFO key does not count READY entries of the state log")
     ctx.end()
 
 
@@ -188,26 +122,20 @@ def r11_3(ctx):
         for n in ast.walk(g.node):
             if isinstance(n, ast.Call) and isinstance(n.func, ast.Name) and n.func.id in SORTERS:
                 sites.append((g, n))
-    for fname, enum in SORTERS.items():
-        f, brs = branches(ctx, fname)
+    for fname in SORTERS:
+        f, enum, table = sorter_table(ctx, fname)
         my_sites = [(g, n) for g, n in sites if n.func.id == fname]
         if not my_sites:
             ctx.note(f"no call site of {fname} (R11.5 reports the unsorted loop)")
-        for member in ctx.repo.enums[enum]:
+        for member, outs in table.items():
             need = set()
-            guarded = set()
-            if member in brs:
-                body_mod = ast.Module(body=brs[member][1], type_ignores=[])
-                for n in ast.walk(body_mod):
-                    if isinstance(n, ast.Subscript) and isinstance(n.value, ast.Name) and n.value.id == f.kwarg and isinstance(n.slice, ast.Constant):
-                        need.add(n.slice.value)
-                    if isinstance(n, ast.Compare) and isinstance(n.left, ast.Constant) and any(isinstance(c, ast.Name) and c.id == f.kwarg for c in n.comparators):
-                        guarded.add(n.left.value)
+            for o in outs:
+                need |= o.kwargs_needed()
             for g, n in my_sites:
                 given = {kw.arg for kw in n.keywords if kw.arg}
                 con = f"{fname}:{member}@{g.qualname}"
                 ctx.instance(con)
-                miss = need - guarded - given
+                miss = need - given
                 if miss:
                     ctx.violation(f"{fname}:{member}:kwargs-missing:{','.join(sorted(miss))}", g.loc(n),
                                   f"{fname} reads kwargs{sorted(miss)} for rule {member} but the call in {g.qualname} does not pass it: selecting {enum}.{member} raises KeyError")
